@@ -34,6 +34,7 @@ def main():
     ap.add_argument("--no-tests", action="store_true")
     ap.add_argument("--repo", default="/repo")
     ap.add_argument("-j", type=int, default=3)
+    ap.add_argument("--label", default="", help="write <dir>/last_run.<label>.json instead of last_run.json")
     args = ap.parse_args()
     d = os.path.abspath(args.dir)
     patch = os.path.join(d, "patch.diff")
@@ -84,7 +85,8 @@ def main():
         res["tier"] = args.tier
     finally:
         shutil.rmtree(scratch, ignore_errors=True)
-    with open(os.path.join(d, "last_run.json"), "w") as f:
+    res["verif_seed"] = os.environ.get("VERIF_SEED", "0")
+    with open(os.path.join(d, f"last_run.{args.label}.json" if args.label else "last_run.json"), "w") as f:
         json.dump(res, f, indent=1)
     brief = {k: v for k, v in res.items() if k != "checks"}
     brief["checks"] = {c: (r["rc"], r["mechanisms"]) for c, r in res.get("checks", {}).items()}
